@@ -34,6 +34,12 @@ class Records:
         self.labels_seen = set()
         self.n_fail_seen = {}
         self.n_prod_seen = {}
+        # statistics discarded in place by the user between two runs: what each cleared table must be measured from
+        self.n_clear = 0
+        self.drained_head = None
+        self.level_base = {}       # buffer -> level() when its records were discarded
+        self.res_base = {}         # pool -> (usage, capacity) when its records were discarded
+        self.src_base = {s: 0 for s in self.sources}
 
     # ---- hooks that run at the moment of the record -----------------------------------------
     def datapoint(self, env, label, sub, dp):
@@ -98,14 +104,46 @@ class Records:
     def bump(self, label, sub, n=1):
         self.occ[(label, sub)] = self.occ.get((label, sub), 0) + n
 
+    def discarded(self, label):
+        m = self.m
+        rm = m.world.rm
+        if label in (None, 'level'):
+            self.level_base = {b: m.devs[b].level() for b in self.buffers}
+        if label in (None, 'resource_update'):
+            self.res_base = {r: (rm.get_resource_usage(r), rm.get_resource_capacity(r)) for r in self.resources}
+        if label in (None, 'supplied_new_part'):
+            self.src_base = {s: m.devs[s].produced_parts for s in self.sources}
+        if label in (None, 'schedule_update'):
+            self.sched_rounds = {sid: [] for sid in self.scheds}
+        if label in (None, 'device_failure'):
+            self.n_fail_seen = {}
+        if label in (None, 'produced_part'):
+            self.n_prod_seen = {}
+        for key in list(self.occ):
+            if label is None or key[0] == label:
+                del self.occ[key]
+        self.ctx.count('statistics_discarded_in_place')
+
     def on_event(self, env, head):
         ctx, m = self.ctx, self.m
         log = m.log
         data = env.simulation_data
         cen = ctx.census
+        cleared_now = []
+        while self.n_clear < len(log.script):
+            t, op, out, ser = log.script[self.n_clear]
+            self.n_clear += 1
+            if op['op'] == 'clear_data':
+                cleared_now.append(op.get('label'))
+        if cleared_now:
+            # the operation is a boundary of its own: nothing else happened since the previous one, so the
+            # occurrence channels are drained first and every count restarts from here
+            self.drain(env, head)
+            for label in cleared_now:
+                self.discarded(label)
         for b in self.buffers:
             recs = data.get('level', {}).get(b)
-            last = recs[-1][1] if recs else 0
+            last = recs[-1][1] if recs else self.level_base.get(b, 0)
             if last != m.devs[b].level():
                 ctx.report('level_record', f'buffer {b}: last level record {last}, level() {m.devs[b].level()}')
                 return
@@ -116,6 +154,12 @@ class Records:
             if recs is None and ctx.spec['resources'].get(r) == 0 and rm.get_resource_capacity(r) == 0 \
                     and rm.get_resource_usage(r) == 0:
                 continue            # a pool that has not been created yet (initial capacity 0)
+            if recs is None and r in self.res_base:
+                if self.res_base[r] != (rm.get_resource_usage(r), rm.get_resource_capacity(r)):
+                    ctx.report('resource_record', f'resource {r}: no record since the statistics were discarded at '
+                               f'{self.res_base[r]}, pool ({rm.get_resource_usage(r)}, {rm.get_resource_capacity(r)})')
+                    return
+                continue
             if recs is None:
                 ctx.report('resource_record', f'resource {r}: no resource_update record at all')
                 return
@@ -147,7 +191,44 @@ class Records:
                     return
                 ctx.count('record_content_checks')
             self.n_prod_seen[pr] = len(recs)
-        # occurrences on the independent channels
+        self.drain(env, head)
+        for sid, rounds in self.sched_rounds.items():
+            recs = data.get('schedule_update', {}).get(sid, [])
+            if [(r[0], r[1]) for r in recs] != [(r[0], r[1]) for r in rounds]:
+                ctx.report('schedule_record', f'schedule_update[{sid}] records {recs[-3:]} ({len(recs)}), action rounds '
+                           f'seen {[(r[0], r[1]) for r in rounds][-3:]} ({len(rounds)})')
+                return
+            ctx.count('schedule_record_checks')
+        for label in ('received_part', 'produced_part', 'supplied_new_part', 'device_failure', 'enter_queue',
+                      'start_work_order', 'finish_work_order'):
+            table = data.get(label, {})
+            subs = set(table) | {s for (l, s) in self.occ if l == label}
+            for sub in subs:
+                n_rec = len(table.get(sub, []))
+                n_occ = self.occ.get((label, sub), 0)
+                if n_rec != n_occ:
+                    ctx.report('record_count', f'{label}[{sub}]: {n_rec} records, {n_occ} occurrences '
+                               f'(at {env.now!r})')
+                    return
+                ctx.count('record_count_checks')
+        for s_id in self.sources:
+            n = len(data.get('supplied_new_part', {}).get(s_id, []))
+            if m.devs[s_id].produced_parts - self.src_base[s_id] != n:
+                ctx.report('source_counter', f'source {s_id}: produced_parts {m.devs[s_id].produced_parts} '
+                           f'({self.src_base[s_id]} when the statistics were last discarded), {n} supplied_new_part '
+                           f'records')
+                return
+        for k in self.sinks:
+            if m.devs[k].received_parts_count != self.sink_leaves[k]:
+                ctx.report('sink_counter', f'sink {k}: received_parts_count {m.devs[k].received_parts_count}, '
+                           f'{self.sink_leaves[k]} parts in {len(data.get("received_part", {}).get(k, []))} records')
+                return
+
+    def drain(self, env, head):
+        """Occurrences on the independent channels (idempotent: every channel has its own cursor)."""
+        ctx, m = self.ctx, self.m
+        log = m.log
+        cen = ctx.census
         while self.n_recv < len(log.receives):
             t, did, part, ct, ser, lvs, val = log.receives[self.n_recv]
             self.n_recv += 1
@@ -168,8 +249,10 @@ class Records:
             self.n_script += 1
             if op['op'] == 'work_order' and out is True:
                 self.bump('enter_queue', op['maint'])
-        if head is not None and not head.cancelled and action_name(head.action) == '_fail':
+        if head is not None and head is not self.drained_head and not head.cancelled \
+                and action_name(head.action) == '_fail':
             self.bump('device_failure', ctx.dev_id(action_owner(head.action)))
+        self.drained_head = head
         # schedule records: one per action round seen through the override action of the registered devices
         while self.n_sched < len(log.sched_calls):
             t, sid, obj, targ, state, ser = log.sched_calls[self.n_sched]
@@ -177,41 +260,12 @@ class Records:
             rounds = self.sched_rounds[sid]
             if not rounds or rounds[-1][2] != ser or rounds[-1][3] == obj:
                 rounds.append((t, state, ser, obj))
-        for sid, rounds in self.sched_rounds.items():
-            recs = data.get('schedule_update', {}).get(sid, [])
-            if [(r[0], r[1]) for r in recs] != [(r[0], r[1]) for r in rounds]:
-                ctx.report('schedule_record', f'schedule_update[{sid}] records {recs[-3:]} ({len(recs)}), action rounds '
-                           f'seen {[(r[0], r[1]) for r in rounds][-3:]} ({len(rounds)})')
-                return
-            ctx.count('schedule_record_checks')
         for s_id in self.sources:
             out = cen.slots[s_id]['out']
             po = self.src_prev[s_id]
             if po is not None and out is not po:
                 self.bump('supplied_new_part', s_id)
             self.src_prev[s_id] = out
-        for label in ('received_part', 'produced_part', 'supplied_new_part', 'device_failure', 'enter_queue',
-                      'start_work_order', 'finish_work_order'):
-            table = data.get(label, {})
-            subs = set(table) | {s for (l, s) in self.occ if l == label}
-            for sub in subs:
-                n_rec = len(table.get(sub, []))
-                n_occ = self.occ.get((label, sub), 0)
-                if n_rec != n_occ:
-                    ctx.report('record_count', f'{label}[{sub}]: {n_rec} records, {n_occ} occurrences '
-                               f'(at {env.now!r})')
-                    return
-                ctx.count('record_count_checks')
-        for s_id in self.sources:
-            if m.devs[s_id].produced_parts != len(data.get('supplied_new_part', {}).get(s_id, [])):
-                ctx.report('source_counter', f'source {s_id}: produced_parts {m.devs[s_id].produced_parts}, '
-                           f'{len(data.get("supplied_new_part", {}).get(s_id, []))} supplied_new_part records')
-                return
-        for k in self.sinks:
-            if m.devs[k].received_parts_count != self.sink_leaves[k]:
-                ctx.report('sink_counter', f'sink {k}: received_parts_count {m.devs[k].received_parts_count}, '
-                           f'{self.sink_leaves[k]} parts in {len(data.get("received_part", {}).get(k, []))} records')
-                return
 
     def features(self):
         return {'labels': len(self.labels_seen), 'label_set': sorted(self.labels_seen)}
